@@ -133,14 +133,19 @@ def fieldSize (ty : Ty) (payload : Bytes) : R Nat :=
     | .ok n => .ok n.toNat
     | .error e => .error e
 
-/-- parse direction: `bytes2val(payload[offset:offset+asiz], adef)`, scaled and rounded when the attribute is scaled -/
-def readVal (ty : Ty) (sc : Scale) (payload : Bytes) (off asiz : Nat) : R PyVal :=
-  match bytes2val (slice payload off (off + asiz)) ty with
+/-- decoding of one attribute from exactly its own bytes: `bytes2val(valb, adef)`, scaled and rounded to 12
+    decimals when the attribute is scaled -/
+def decodeVal (ty : Ty) (sc : Scale) (b : Bytes) : R PyVal :=
+  match bytes2val b ty with
   | .error e => .error e
   | .ok v =>
     match sc with
     | .one => .ok v
     | _ => scaleUp v sc
+
+/-- parse direction: the attribute's bytes are `payload[offset:offset+asiz]` -/
+def readVal (ty : Ty) (sc : Scale) (payload : Bytes) (off asiz : Nat) : R PyVal :=
+  decodeVal ty sc (slice payload off (off + asiz))
 
 /-- generate direction: the value is the keyword argument or the nominal value; its bytes are
     `val2bytes(val, adef)` or `val2bytes(int(val / ares), adef)` -/
